@@ -16,6 +16,7 @@ def _coq_eval(ctx):
     with open(src, "w") as f:
         f.write("From Coq Require Import List String Bool.\n"
                 "From AGH Require Import Base.Conc Model.Guards Proofs.LockTable Gen.LockTable.\n"
+                "Set Printing Depth 1000000.\n"
                 "Definition BADACC := Eval vm_compute in map (fun a => (access_key a, a_pos a)) "
                 "(filter (fun a => negb (access_ok a)) accesses).\nPrint BADACC.\n"
                 "Definition NBADORD := Eval vm_compute in List.length (bad_orders (rank_of (computed_ranks "
